@@ -35,6 +35,7 @@ BOUNDS = {
         "until_all_ready": "2..3 workers whose begin() sleeps 0 / 0.4 / 0.2 s, FunctorPool and "
                            "FactoryFunctorPool, with and without a call afterwards",
         "quota_no_factory": "FunctorPool whose workers carry quota 1..2, number of chunks <= total quota",
+        "random": "8 random lifecycle configurations (1..3 workers, quota 1..3, 1..3 calls, |data| 0..12)",
     },
     "thorough": {
         "lifecycle": "as quick with 3-call histories, |data| up to 12, + 100 random configurations",
@@ -181,7 +182,7 @@ def cases(tier, seed):
             for call in (True, False):
                 yield {"kind": "until-all-ready", "pool": pool, "begin_delays": ds, "call_after": call}
     rng = random.Random(seed)
-    for _ in range(0 if quick else 100):
+    for _ in range(8 if quick else 100):
         pool = rng.choice(["functor", "factory"])
         yield {"kind": "lifecycle", "pool": pool, "workers": rng.randint(1, 3),
                "quota": rng.choice([1, 2, 3]) if pool == "factory" else None,
